@@ -25,3 +25,8 @@ Definition layout (main_sizes : list Z) (subs : list (list Z)) (arr_sizes : list
       VL (map (fun sizes => VL (map (fun r => VZ (sub_local st (fst r))) (fst (alloc_locals 0 sizes)))) subs);
       VL (map VZ (collect arr_sizes));
       VZ (scratch st scratch_size)].
+
+(* a declaration list mixing locals and Dict structures: addresses in declaration order (key, value for a Dict), scratch below *)
+Definition layout_items (l : list item) (scratch_size : Z) : V :=
+  let '(rs, st) := alloc_items 0 l in
+  VL [VL (map (fun r => VZ (fst r)) rs); VZ (scratch st scratch_size)].
